@@ -119,9 +119,8 @@ theorem gen_retuneStore_eq (to t i : Int) :
 /-- **growth of the array**: first allocation HEART_BEAT_CHUNK, `num_hb_objs == max_heart_beats` adds a chunk -/
 theorem gen_growCap_eq (cap n : Nat) :
     (NV.Gen.C11.growCap (cap : Int) (n : Int)).toNat = (if cap = 0 then chunk else if n = cap then cap + chunk else cap) := by
-  have hch : chunk = 32 := by decide
   unfold NV.Gen.C11.growCap
-  rw [hch]
+  show (if ¬ ((cap : Int) ≠ 0) then ((chunk : Nat) : Int) else if (n : Int) = (cap : Int) then (cap : Int) + ((chunk : Nat) : Int) else (cap : Int)).toNat = _
   split
   · rename_i h; have : cap = 0 := by omega
     simp [this]
@@ -135,6 +134,9 @@ theorem gen_growCap_eq (cap n : Nat) :
 
 /-- **save_context / restore_context** carry command_giver -/
 theorem gen_ctxSaveRestore_eq : NV.Gen.C11.ctxSaveRestore = [1, 1] := rfl
+
+/-- **efun wrappers**: query_heart_beat(ob) asks about its argument, heart_beats() returns get_heart_beats () -/
+theorem gen_efunWrappers_eq : NV.Gen.C11.efunWrappers = [1, 1] := rfl
 
 /-- **heart_beats()** answers the list in reverse order -/
 theorem gen_heartBeatsReversed_eq : NV.Gen.C11.heartBeatsReversed = true := rfl
@@ -150,8 +152,9 @@ theorem gen_timerSetsFlag_eq (f : Int) : NV.Gen.C11.timerSetsFlag f = 1 := rfl
 theorem timerFlagHeartbeat_val : NV.Gen.C11.timerFlagHeartbeat = 2 := rfl
 
 /-- the guard of the round: `(MAIN_OPTION (timer_flags) & TIMER_FLAG_HEARTBEAT) && (num_hb_to_do > 0)` (after
-    `num_hb_to_do = num_hb_objs`); the bit test is `((timer_flags / 2) % 2) * 2` -/
-abbrev enters (n tf : Int) : Prop := (tf / 2) % 2 * 2 ≠ 0 ∧ n > 0
+    `num_hb_to_do = num_hb_objs`); the bit test `x & F` (F a power of two) is `((x / F) % 2) * F`, F = the regenerated TIMER_FLAG_HEARTBEAT -/
+abbrev enters (n tf : Int) : Prop :=
+  (tf / ((NV.Gen.C11.timerFlagHeartbeat : Nat) : Int)) % 2 * ((NV.Gen.C11.timerFlagHeartbeat : Nat) : Int) ≠ 0 ∧ n > 0
 
 /-- **entry of a round**: `heart_beat_flag = 0; num_hb_to_do = num_hb_objs; if ((timer_flags & TIMER_FLAG_HEARTBEAT) &&
     num_hb_to_do > 0) { heart_beat_index = 0; while ...`: heart_beat_index keeps its (stale) value when the round is not
@@ -212,11 +215,19 @@ theorem callAfter_ref (w : World) (ob : Nat) : callAfter w ob = { w with cg := n
   rw [h]
   rfl
 
-theorem hbOn_iff (tf : Int) : hbOn tf = true ↔ (tf / 2) % 2 * 2 ≠ 0 := by
+theorem hbOn_iff (tf : Int) : hbOn tf = true ↔
+    (tf / ((NV.Gen.C11.timerFlagHeartbeat : Nat) : Int)) % 2 * ((NV.Gen.C11.timerFlagHeartbeat : Nat) : Int) ≠ 0 := by
   unfold hbOn
-  rw [timerFlagHeartbeat_val]
+  have hF : (0 : Int) < ((NV.Gen.C11.timerFlagHeartbeat : Nat) : Int) := by decide
   simp only [decide_eq_true_eq]
-  constructor <;> intro h <;> omega
+  constructor
+  · intro h hx
+    rcases Int.mul_eq_zero.mp hx with h1 | h2
+    · exact h h1
+    · omega
+  · intro h hx
+    apply h
+    rw [hx, Int.zero_mul]
 
 theorem destructLeaf_ref (w : World) (t : Nat) :
     destructLeaf w t = { setHeartBeat w t 0 with dead := t :: (setHeartBeat w t 0).dead,
@@ -296,7 +307,7 @@ def roundRef (sc : Scripts) : Nat → World → World × List Ev
                              cg := if w.living.contains hb.ob then some hb.ob else none, ec := true,
                              nb := fun o => if o = hb.ob then w.nb o + 1 else w.nb o }
           match runOps w1 hb.ob (sc hb.ob (w.nb hb.ob)) with
-          | (w2, evs, .err) => (errorHandler w2, .beat hb.ob :: cx :: evs ++ [.tickAbort])
+          | (w2, evs, .err) => ({ errorEntry w2 with cg := none }, .beat hb.ob :: cx :: evs ++ [.tickAbort])
           | (w2, evs, _) =>
             let w3 := { w2 with cg := none, idx := w2.idx + 1 }
             if w3.idx = w3.todo || w3.flag then (finish w3, .beat hb.ob :: cx :: evs ++ [.beatEnd hb.ob, .tickEnd])
@@ -356,7 +367,7 @@ theorem tick_eq_ref (sc : Scripts) (w : World) : tickCore sc w = tickRef sc w :=
       rw [decide_eq_false he, if_neg he, if_neg (by decide), if_pos rfl, if_neg hpos, if_pos rfl]
       rfl
   | false =>
-    have hb : ¬ ((w.tflags / 2) % 2 * 2 ≠ 0) := by
+    have hb : ¬ ((w.tflags / ((NV.Gen.C11.timerFlagHeartbeat : Nat) : Int)) % 2 * ((NV.Gen.C11.timerFlagHeartbeat : Nat) : Int) ≠ 0) := by
       intro h; have := (hbOn_iff w.tflags).mpr h; rw [hon] at this; cases this
     have he : ¬ enters (w.hbs.length : Int) w.tflags := fun h => hb h.1
     rw [decide_eq_false he, if_neg he]
